@@ -180,7 +180,7 @@ def limits():
 
 def main():
     import uberjob
-    if not os.path.abspath(uberjob.__file__).startswith("/repo/src"):
+    if not os.path.abspath(uberjob.__file__).startswith(os.environ.get("PYTHONPATH", "/repo/src").split(os.pathsep)[0]):
         print(json.dumps({"error": "uberjob imported from " + uberjob.__file__}), flush=True)
         return
     for line in sys.stdin:
